@@ -34,9 +34,13 @@ type Cell struct {
 	Dyn  bool // backing store of a make'd slice: cell value is (Array Int Elem)
 	Len  *Term
 	Param bool
+	Ghost *Sort // ghost cell (wire engine): holds a term of this sort
 }
 
 func (c *Cell) sort() *Sort {
+	if c.Ghost != nil {
+		return c.Ghost
+	}
 	if c.Dyn {
 		return ArraySort(SInt, SortOf(c.Typ))
 	}
@@ -263,12 +267,74 @@ func wrapTo(x *Term, t types.Type) *Term {
 	return WithRange(Sub(Mod(Add(x, half), m), half), lo, hi)
 }
 
-// rangeOf gives a conservative range of a term if known.
+var rangeMemo = map[*Term]*Range{}
+
+// rangeOf gives a conservative range of a term if known (interval analysis over constants,
+// typed atoms, sums, constant multiples and if-then-else).
 func rangeOf(x *Term) *Range {
 	if x.Op == "int" {
 		return &Range{x.Int, x.Int}
 	}
-	return x.Rng
+	if r, ok := rangeMemo[x]; ok {
+		return r
+	}
+	var r *Range
+	switch x.Op {
+	case "ite":
+		a, b := rangeOf(x.Args[1]), rangeOf(x.Args[2])
+		if a != nil && b != nil {
+			lo, hi := a.Lo, a.Hi
+			if b.Lo.Cmp(lo) < 0 {
+				lo = b.Lo
+			}
+			if b.Hi.Cmp(hi) > 0 {
+				hi = b.Hi
+			}
+			r = &Range{lo, hi}
+		}
+	case "+":
+		lo, hi := new(big.Int), new(big.Int)
+		ok := true
+		for _, a := range x.Args {
+			ra := rangeOf(a)
+			if ra == nil {
+				ok = false
+				break
+			}
+			lo.Add(lo, ra.Lo)
+			hi.Add(hi, ra.Hi)
+		}
+		if ok {
+			r = &Range{lo, hi}
+		}
+	case "*":
+		if len(x.Args) == 2 && x.Args[0].Op == "int" {
+			ra := rangeOf(x.Args[1])
+			if ra != nil {
+				a, b := new(big.Int).Mul(x.Args[0].Int, ra.Lo), new(big.Int).Mul(x.Args[0].Int, ra.Hi)
+				if a.Cmp(b) > 0 {
+					a, b = b, a
+				}
+				r = &Range{a, b}
+			}
+		}
+	}
+	if x.Rng != nil {
+		if r == nil {
+			r = x.Rng
+		} else {
+			lo, hi := r.Lo, r.Hi
+			if x.Rng.Lo.Cmp(lo) > 0 {
+				lo = x.Rng.Lo
+			}
+			if x.Rng.Hi.Cmp(hi) < 0 {
+				hi = x.Rng.Hi
+			}
+			r = &Range{lo, hi}
+		}
+	}
+	rangeMemo[x] = r
+	return r
 }
 
 func arithBin(op token.Token, x, y *Term, t types.Type) (*Term, *Term) {
@@ -347,6 +413,12 @@ func arithBin(op token.Token, x, y *Term, t types.Type) (*Term, *Term) {
 		}
 		return ranged(Div(x, pow2Term(y, w))), nil
 	case token.AND:
+		if r, ok := bitTest(x, y); ok {
+			return ranged(r), nil
+		}
+		if r, ok := bitTest(y, x); ok {
+			return ranged(r), nil
+		}
 		if r, ok := maskAnd(x, y, w); ok {
 			return ranged(r), nil
 		}
@@ -362,6 +434,12 @@ func arithBin(op token.Token, x, y *Term, t types.Type) (*Term, *Term) {
 			return x, nil
 		}
 		if r, ok := disjointOr(x, y); ok {
+			return ranged(r), nil
+		}
+		if r, ok := orHighBit(x, y); ok {
+			return ranged(r), nil
+		}
+		if r, ok := orHighBit(y, x); ok {
 			return ranged(r), nil
 		}
 		return ranged(App(DeclUF(fmt.Sprintf("bitor%d", w), SInt, SInt, SInt), x, y)), nil
@@ -458,4 +536,84 @@ func pow2Term(k *Term, w int) *Term {
 
 func convertInt(x *Term, from, to types.Type) *Term {
 	return wrapTo(x, to)
+}
+
+// bitTest: x & 2^k == ((x div 2^k) mod 2) * 2^k   (x non-negative)
+func bitTest(x, y *Term) (*Term, bool) {
+	if y.Op != "int" || y.Int.Sign() <= 0 {
+		return nil, false
+	}
+	k := y.Int.BitLen() - 1
+	if Pow2(k).Cmp(y.Int) != 0 {
+		return nil, false
+	}
+	// x = sum of independent bit terms ite(b_j, 2^j, 0) with distinct j: bit k is b_k
+	if bits, ok := bitTerms(x); ok {
+		if t, ok := bits[k]; ok {
+			return t, true
+		}
+		return IntC(0), true
+	}
+	rx := rangeOf(x)
+	if rx == nil || rx.Lo.Sign() < 0 {
+		return nil, false
+	}
+	return Mul(y, Mod(Div(x, y), IntC(2))), true
+}
+
+// bitTerms recognises x = sum_j ite(b_j, 2^j, 0) (distinct j) and returns the terms by bit position.
+func bitTerms(x *Term) (map[int]*Term, bool) {
+	var args []*Term
+	if x.Op == "+" {
+		args = x.Args
+	} else {
+		args = []*Term{x}
+	}
+	out := map[int]*Term{}
+	for _, a := range args {
+		var c *big.Int
+		switch {
+		case a.Op == "ite" && a.Args[1].Op == "int" && a.Args[2].Op == "int" && a.Args[2].Int.Sign() == 0:
+			c = a.Args[1].Int
+		case a.Op == "ite" && a.Args[1].Op == "int" && a.Args[2].Op == "int" && a.Args[1].Int.Sign() == 0:
+			c = a.Args[2].Int
+		case a.Op == "int":
+			c = a.Int
+		default:
+			return nil, false
+		}
+		if c.Sign() <= 0 {
+			return nil, false
+		}
+		j := c.BitLen() - 1
+		if Pow2(j).Cmp(c) != 0 {
+			return nil, false
+		}
+		if _, dup := out[j]; dup {
+			return nil, false
+		}
+		out[j] = a
+	}
+	return out, true
+}
+
+// orHighBit: x | 2^k == x + 2^k when 0 <= x < 2^k
+func orHighBit(x, y *Term) (*Term, bool) {
+	if y.Op != "int" || y.Int.Sign() <= 0 {
+		return nil, false
+	}
+	k := y.Int.BitLen() - 1
+	if Pow2(k).Cmp(y.Int) != 0 {
+		return nil, false
+	}
+	if bits, ok := bitTerms(x); ok {
+		if _, set := bits[k]; !set {
+			return Add(x, y), true
+		}
+	}
+	rx := rangeOf(x)
+	if rx == nil || rx.Lo.Sign() < 0 || rx.Hi.Cmp(y.Int) >= 0 {
+		return nil, false
+	}
+	return Add(x, y), true
 }
